@@ -91,6 +91,9 @@ class TagWorker(Worker):
         if fail_init_index is not None and self.worker_index == fail_init_index:
             # a transient failure when a flag file is named: it fails only while that file exists
             if fail_init_flag is None or os.path.exists(fail_init_flag):
+                if fail_init_kind == 'sysexit0':
+                    # ... or leaves with the 'success' code: still a worker that did not come up
+                    raise SystemExit(0 if self.worker_index % 2 else None)
                 if fail_init_kind == 'sysexit':
                     # a worker that gives up during set-up the way scripts do
                     raise SystemExit(f'cannot initialise {tag}[{self.worker_index}]')
